@@ -241,9 +241,19 @@ class Op:
     def replay(self, mv, st, case, finite, clause):
         return []
 
+    def keep(self, I, pid):
+        """the obligations of this path that serve `pid`; a property clause that serves NO property at all is a bug in
+        the clause table (it would be dropped silently from every check): fail loudly instead"""
+        allp = {p for ps in self.PROPS_OF.values() for p in ps}
+        for ob in I.obls:
+            if ob.kind == 'property' and not any(self.serves(ob.name, p) for p in allp):
+                raise RuntimeError(f"clause {ob.name!r} of {self.FN} is mapped to no property (PROPS_OF)")
+        return [ob for ob in I.obls if ob.kind in ('aux', 'cover') or self.serves(ob.name, pid)]
+
     def clause_of(self, name):
-        n = name.split('/')[-1]
-        return n
+        """last path component of an obligation name; a '/' inside [...] (e.g. ensures[conc/0]) is not a separator"""
+        head, br, tail = name.partition('[')
+        return head.split('/')[-1] + br + tail
 
     def serves(self, name, pid):
         if pid is None:
@@ -293,7 +303,7 @@ def run_op(op, pid, case, finite_max=2):
         I.oblige('cover', True, 'cover')
         out = op.invoke(I, st, case)
         op.emit(I, out, st, case)
-        I.obls = [ob for ob in I.obls if ob.kind in ('aux', 'cover') or op.serves(ob.name, pid)]
+        I.obls = op.keep(I, pid)
         return out
 
     def one_pass(timeout, only, fallbacks):
